@@ -828,10 +828,19 @@ func (g *G) sig(depth int, inner bool) *Sig {
 		np = g.Int(maxP, maxP+3)
 	}
 	named := !g.Chance(g.P.UnnamedPct) || (g.forceNamed && !inner)
+	// long runs of same-typed unnamed parameters: numbered names beyond 9 (s10, s11, ...)
+	manySame := !inner && !named && g.Chance(3)
+	if manySame {
+		np = g.Int(10, 13)
+		g.label("sig:many-same-typed-unnamed")
+	}
 	used := map[string]bool{}
 	fold := map[string]bool{}
 	for i := 0; i < np; i++ {
 		p := Param{T: g.ty(tyCtx{depth: depth})}
+		if manySame {
+			p.T = basic(g.Pick([]string{"string", "string", "int", "bool"}), true)
+		}
 		if named {
 			for tries := 0; ; tries++ {
 				n := g.paramName(used, i)
